@@ -375,6 +375,28 @@ def transform_cases(draw):
     return {"spec": spec, "kind": kind, "args": args, "form": draw(st.integers(0, 1))}
 
 
+@st.composite
+def moment_cases(draw):
+    nk = draw(st.sampled_from(["int", "frac", "frac"]))
+    R = S.base_radius(nk)
+    c = (round(draw(st.floats(-2, 2)) * R), round(draw(st.floats(-2, 2)) * R))
+    spec = draw(S.shape_spec(nk, (1,), center=(float(c[0]), float(c[1])), kinds=S.KINDS[2:], templates=True))
+    exps = []
+    for _ in range(3):
+        sm = draw(st.integers(0, 6))
+        a = draw(st.integers(0, sm))
+        exps.append([a, sm - a])
+    return {"nk": nk, "deg": [1], "spec": spec, "exps": exps}
+
+
+def judge_moments(ctx, case):
+    """areas and moments of rational polygons are exact rationals (the oracle
+    of C04, restricted to int/Fraction polygons, counted for this property)"""
+    from . import c04
+
+    c04.judge(ctx, case)
+
+
 def parts(tier):
     q = tier == "quick"
     pt = st.fixed_dictionaries({"x": _coord(), "y": _coord()})
@@ -384,4 +406,5 @@ def parts(tier):
         Part("py311", judge_py311, batch, n=40 if q else 400, shards=2),
         Part("operators", judge_operators, operator_cases(), n=600 if q else 12000, budget_s=80 if q else 1500),
         Part("transform", judge_transform, transform_cases(), n=1200 if q else 24000, budget_s=60 if q else 900),
+        Part("moments", judge_moments, moment_cases(), n=800 if q else 16000, budget_s=40 if q else 900),
     ]
